@@ -385,9 +385,9 @@ def plan(tier, seed):
     for i in range(nsh):
         specs.append(dict(name="matchers-%d" % i, kind="matchers", years=years[i::nsh]))
     for i in range(8):
-        specs.append(dict(name="eval-%d" % i, kind="eval", n=60 if tier == "quick" else 1200))
+        specs.append(dict(name="eval-%d" % i, kind="eval", n=60 if tier == "quick" else 8000))
     for i in range(8):
-        specs.append(dict(name="timer-%d" % i, kind="timer", n=12 if tier == "quick" else 200))
+        specs.append(dict(name="timer-%d" % i, kind="timer", n=12 if tier == "quick" else 1500))
     return specs
 
 
